@@ -84,7 +84,7 @@ def render_py(t: list, imports: Imports, here: str) -> str:
         imports.add(t[1], t[2])
         return t[2]
     if k == "tvar":
-        imports.tvars.setdefault(t[1], {"name": t[1]})
+        imports.tvars.setdefault(t[1], {"name": t[1], "bound": t[2] if len(t) > 2 else None})  # ["tvar", name, bound?]
         return t[1]
     if k == "list":
         return f"list[{render_py(t[1], imports, here)}]"
